@@ -29,6 +29,11 @@ def gen_fit(rng, nan_p=0.2):
 
 def gen_case(rng):
     kind = rng.choice([0, 0, 0, 1, 2])
+    if kind == 0 and rng.random() < 0.012:
+        # a large population with a large comparison group (the samplers differ with the group size and could with the population's)
+        n = rng.randint(105, 150)
+        pop = [[i, rng.randint(0, 40), gen_fit(rng, 0.05)] for i in range(n)]
+        return dict(kind=0, sel=rng.choice([5, 6, 7]), pop=pop, target=rng.randint(n // 3, n - 1))
     if kind == 0:
         n = rng.randint(0, 14)
         pop = [[i, rng.randint(0, 2), gen_fit(rng)] for i in range(n)]
